@@ -39,6 +39,7 @@ import (
 	"github.com/sdcio/data-server/pkg/datastore/types"
 	"github.com/sdcio/data-server/pkg/schema"
 	"github.com/sdcio/data-server/pkg/utils"
+	"github.com/sdcio/data-server/pkg/verifhook"
 )
 
 type Datastore struct {
@@ -303,6 +304,7 @@ MAIN:
 				continue
 			}
 			log.Debugf("%s: sync acquired semaphore", d.Name())
+			verifhook.Point("ds.sync.acquired")
 			go d.storeSyncMsg(ctx, syncup, sem)
 		}
 	}
